@@ -61,6 +61,9 @@ pub enum RStep {
     Lose { d: u8 },
     /// the callee gets a stream that ends before the request
     Break { d: u8 },
+    /// the request arrives, but the direction back to the dialer is already dead: whatever the
+    /// callee answers (a decline included) cannot be sent
+    DeliverNoReturn { d: u8 },
     /// let up to `frames` frames of session s flow (delivered sessions, index modulo)
     Pump { s: u8, frames: u8 },
     /// cut session s: 0 towards the dialer, 1 towards the acceptor, 2 both; reset or EOF
@@ -135,7 +138,7 @@ impl Scenario for CoordReal {
                 6..=8 => RStep::SyncReport { x, news: rng.chance(3, 4) },
                 9..=14 => RStep::Deliver { d: rng.below(4) as u8 },
                 15..=16 => RStep::Lose { d: rng.below(4) as u8 },
-                17 => RStep::Break { d: rng.below(4) as u8 },
+                17 => if rng.chance(1, 2) { RStep::Break { d: rng.below(4) as u8 } } else { RStep::DeliverNoReturn { d: rng.below(4) as u8 } },
                 18..=24 => RStep::Pump { s: rng.below(4) as u8, frames: rng.range(1, 6) as u8 },
                 25..=27 => RStep::Cut { s: rng.below(4) as u8, which: rng.below(3) as u8, reset: rng.chance(1, 2) },
                 28 if local_faults => RStep::LocalFault { x, kind: *rng.pick(&[0u8, 0, 1, 2, 2, 3]) },
@@ -425,7 +428,7 @@ async fn run(plan: &CoordRealPlan, cx: &mut Cx) -> Res {
                 }
                 nodes[x].tx.send(ToLiveActor::IncomingSyncReport { from: nodes[1 - x].id, report: sync_report(ns, *news) }).await.map_err(|_| Violation::new("actor-stopped/live", "live actor inbox closed".to_string()))?;
             }
-            RStep::Deliver { d } | RStep::Break { d } => {
+            RStep::Deliver { d } | RStep::Break { d } | RStep::DeliverNoReturn { d } => {
                 let cand: Vec<usize> = dials.iter().filter(|d| !d.delivered && !d.dial_done.get()).map(|d| d.id).collect();
                 if cand.is_empty() {
                     continue;
@@ -437,6 +440,10 @@ async fn run(plan: &CoordRealPlan, cx: &mut Cx) -> Res {
                 let broken = matches!(step, RStep::Break { .. });
                 if broken {
                     cx.fault("request_broken");
+                }
+                if matches!(step, RStep::DeliverNoReturn { .. }) {
+                    dials[id].b2a.reset();
+                    cx.fault("reply_direction_dead_at_delivery");
                 }
                 if let Some(msg) = deliver(&mut dials[id], &nodes, broken) {
                     nodes[1 - from].tx.send(msg).await.map_err(|_| Violation::new("actor-stopped/live", "live actor inbox closed".to_string()))?;
